@@ -29,22 +29,15 @@ def getName : List (Nat × String) → Nat → Option String
   | [], _ => none
   | (k, v) :: rest, q => if k = q then some v else getName rest q
 
-/-- `Module::set_fn_name(id, name)`; `none` = the assertion fails (panic) -/
+/-- `Module::set_fn_name(id, name)`; `none` = a panic (an id outside the function vector). The *kind* of the function decides
+    (since the repair of F38; before it the id range `id < num_funcs` did, which counts imports added after parsing): a local
+    function carries its name itself, an imported one in the import-name table, at the position of the import entry it records -/
 def setFnName (s : NSt) (id : Nat) (name : String) : Option NSt :=
-  if id < s.e.f.numImp then
-    -- `imports.set_fn_name(name, id)`: the `id`-th function import (deleted ones included: ids are not renumbered before encode)
-    let fimps := s.e.imports.zipIdx.filter (fun (p : ImpEntry × Nat) => p.1.sp == some Sp.F)
-    let s1 : NSt := match fimps[id]? with
-      | some p => { s with impName := setName s.impName p.2 name }
-      | none => s
-    -- `assert!(functions.set_imported_fn_name(id, name))`
-    match s.e.f.items[id]? with
-    | some it => if it.imp then some s1 else none
-    | none => none
-  else
-    match s.e.f.items[id]? with
-    | some it => if it.imp then none else some { s with fname := setName s.fname it.uid name }
-    | none => none
+  match s.e.f.items[id]? with
+  | none => none
+  | some it =>
+    if it.imp then some { s with impName := setName s.impName it.impId name }
+    else some { s with fname := setName s.fname it.uid name }
 
 /-- names of the function section of the name section: (output index, name), in index order -/
 def emittedFnames (s : NSt) (fspaceLocals : List Nat) : List (Nat × String) :=
